@@ -932,12 +932,14 @@ class ExecutionController:
                 # Already done, no need to think more.
                 return
 
-            if stmt_id in self.plan_id_set:
-                # Already in plan, no need to think more.
-                return
-
             if stmt_id in early_plan:
                 return
+
+            if stmt_id in self.plan_id_set:
+                # Already in plan, but maybe not early enough: move it (and,
+                # below, its dependencies) to the front.
+                self.plan.remove(stmt_id)
+                self.plan_id_set.remove(stmt_id)
 
             for dep_id in stmt.depends_on:
                 add_with_deps(id_to_stmt[dep_id])
